@@ -11,6 +11,16 @@ NOTE = ("claims are over the reals within the bounds stated in the evidence file
         "classes and term transformations of /verif/vf (validated each run against the real code on floats), stub contracts listed in the evidence")
 
 CHECKS = {
+    "C02": ("5 C02", "flux solver unrolled to K loop iterations (quick 2, thorough 4) for 3 permeate modes x 2 activity models, activity "
+                     "coefficients and saturation pressures as uninterpreted functions: law at a self-consistent iterate, vacuum / zero-pressure "
+                     "/ fixed-pressure identities, permeance scaling (relational, with congruence)"),
+    "C04": ("5 C04", "Gibbs-Duhem as a division-free polynomial non-vanishing query after symbolic differentiation of the executed ln gamma "
+                     "(NRTL fully symbolic, 4 parameter shapes; UNIQUAC per built-in mixture with exact component constants), pure limits, "
+                     "Raoult, partial-pressure law and basis independence; the UNIQUAC gamma_2 defect is a characterised known finding"),
+    "C13": ("5 C13", "unbounded: Clausius-Clapeyron for Antoine and Frost with symbolic constants (symbolic d/dT of the executed ln P), "
+                     "cooling-heat additivity / antisymmetry / zero / derivative identities"),
+    "C14": ("5 C14", "all 9 unit pairs and 27 triples with symbolic value, scale and molar mass: factor, linearity, identity, round trip, "
+                     "path independence, constants; every leaf of missing-component / unknown-unit calls raises; value clamp"),
     "C15": ("5 C15", "unbounded: round trip, end points, sum, monotonicity, ratio law as rational identities in (p, q, M1, M2) on the executed "
                      "conversion code; rejection outside [0,1] on every leaf of the real validator"),
 }
